@@ -1,14 +1,14 @@
 CONSTANTS
   Labels = {"a", "b"}
-  Values = {"x", "e"}
-  MaxEpoch = 3
+  Values = {"x", "y"}
+  MaxEpoch = 5
   MaxBatch = 1
   MaxPerEpoch = 1
   Export = TRUE
-  WithOther = FALSE
+  WithOther = TRUE
 INIT MCInit
 NEXT MCNext
 VIEW View
-INVARIANTS TypeOK EpochCountsEffective LeafShape EveryEpochInserts LookupSoundOnHonest
+INVARIANTS TypeOK EpochCountsEffective LeafShape LookupSoundOnHonest
 PROPERTY CommittedOnlyGrows
 CHECK_DEADLOCK FALSE
